@@ -356,6 +356,7 @@ func (e *Evaluator) evalExpr(expr Expr) (*Cell, error) {
 }
 
 func (e *Evaluator) evalCaseMatch(value *Cell, exprs []Expr) (bool, map[string]*Cell, error) {
+alternatives:
 	for _, expr := range exprs {
 		switch ex := expr.(type) {
 		case *ExprLiteral:
@@ -371,13 +372,14 @@ func (e *Evaluator) evalCaseMatch(value *Cell, exprs []Expr) (bool, map[string]*
 				return true, nil, nil
 			}
 		case *ExprArray:
+			// if this alternative doesn't match, try the next one
 			if value.Value.Tag != ValueArray {
-				return false, nil, nil
+				continue
 			}
 
 			array := value.Value.Array
 			if len(array) != len(ex.Items) {
-				return false, nil, nil
+				continue
 			}
 
 			bindings := make(map[string]*Cell)
@@ -389,7 +391,7 @@ func (e *Evaluator) evalCaseMatch(value *Cell, exprs []Expr) (bool, map[string]*
 					return false, nil, err
 				}
 				if !match {
-					return false, nil, nil
+					continue alternatives
 				}
 				for k, v := range newBindings {
 					bindings[k] = v
